@@ -59,6 +59,9 @@ extern void sf_verif_get_globals (int *errno_out, uint64_t *parselog_digest, uin
 /* weak: absent in the non-sanitizer variants (fast, nosse) */
 extern void __sanitizer_set_death_callback (void (*cb) (void)) __attribute__ ((weak)) ;
 extern size_t __sanitizer_get_current_allocated_bytes (void) __attribute__ ((weak)) ;
+#include <malloc.h>
+/* live heap bytes: the sanitizer allocator's statistic, or glibc's in the variants built without ASan */
+static inline size_t vh_heap_bytes (void) { if (__sanitizer_get_current_allocated_bytes) return __sanitizer_get_current_allocated_bytes () ; { struct mallinfo2 mi = mallinfo2 () ; return mi.uordblks + mi.hblkhd ; } }
 extern int __lsan_do_recoverable_leak_check (void) __attribute__ ((weak)) ;
 
 /*------------------------------------------------------------------ globals */
